@@ -123,6 +123,11 @@ struct Pools {
          v->decl_data.master_data->home = &greg; v->lexreg = &greg; v->decl_data.master_data->langlinkage = &L.cxx_linkage();
          vars.push_back(v); decls.push_back(v);
       }
+      {  // a redeclaration (same name, same type, same scope): master() is the first declaration, not the node itself
+         auto* v = sc->make_var(*idents[0], *types[0]);
+         v->decl_data.master_data->home = &greg; v->lexreg = &greg;
+         vars.push_back(v); decls.push_back(v);
+      }
       auto* m = lex.make_mapping(greg, Mapping_level{ 1 });
       for (int i = 0; i < 4; ++i) { auto* p = m->param(*idents[4 + i], *types[i]); params.push_back(p); decls.push_back(p); }
       m->body = exprs[0];
@@ -132,6 +137,11 @@ struct Pools {
       for (int i = 0; i < 2; ++i) {
          auto* t = sc->make_primary_template(*idents[8 - i], fa);
          t->decl_data.master_data->home = &greg; t->lexreg = &greg;
+         templates.push_back(t);
+      }
+      for (int i = 0; i < 2; ++i) {     // and a redeclaration of each template
+         auto* t = sc->make_primary_template(*idents[8 - i], fa);
+         t->lexreg = &greg;
          templates.push_back(t);
       }
    }
